@@ -124,6 +124,12 @@ class FaultSeam:
                     out = orig(*args, **kwargs).contiguous().clone()
                     out.view(-1)[0] = float("nan") if kind == "nan" else float("inf")
                     return out
+                if kind == "huge":
+                    # finite in the routine's (float64) precision, beyond the range of the float32 storage dtype
+                    out = orig(*args, **kwargs).contiguous().clone()
+                    if out.dtype == torch.float64:
+                        out.view(-1)[0] = 1e39
+                    return out
                 if kind == "lowprec":
                     # whether the fault amounts to a failure depends on the path taken underneath (diagonal / 1x1 fast
                     # paths and float64 factors never reach the low-precision eigh; the retry option recovers): the
@@ -233,6 +239,12 @@ class FaultOracle(Oracle):
                     eff = kind
                     if kind == "lowprec":
                         eff = "ok" if (hp.solver.get("retry", True) or hp.precond_dtype == torch.float64 or dim == 1) else "exception"
+                    if kind == "huge":
+                        # the stored root has the parameter's dtype: a value that overflows there is a non-finite root
+                        if hp.kind == "shampoo" and hp.precond_dtype == torch.float64 and b.param.dtype == torch.float32:
+                            eff = "inf"
+                        else:
+                            kind, eff = "ok", "ok"
                     calls.append({"group": gi, "block": b.li, "factor": k, "dim": dim, "fault": kind, "effect": eff})
                 self.blocks_plan.append({"key": (gi, b.li), "poisoned": (gi, b.li) in self.poisoned, "calls": calls})
                 if (gi, b.li) not in self.poisoned:
@@ -283,6 +295,8 @@ class FaultOracle(Oracle):
                 run.probes["fault_exception"] += 1
             elif c["fault"] in ("nan", "inf"):
                 run.probes["fault_nonfinite_result"] += 1
+            elif c["fault"] == "huge":
+                run.probes["fault_overflowing_result"] += 1
             elif c["fault"] == "lowprec":
                 run.probes["fault_lowprec_retry" if c["effect"] == "ok" else "fault_lowprec_noretry"] += 1
         run.fault_counts.update(fired)
@@ -476,7 +490,7 @@ def plan_faults(rng: random.Random, trace: dict) -> None:
                 faults = [{"group": gi, "block": target, "factor": rng.randrange(nf), "kind": "exception", "burst": True}]
         elif mode == "nonfinite":
             if n_i >= burst_start and nf:
-                faults = [{"group": gi, "block": target, "factor": rng.randrange(nf), "kind": rng.choice(["nan", "inf"])}]
+                faults = [{"group": gi, "block": target, "factor": rng.randrange(nf), "kind": rng.choice(["nan", "inf", "huge"])}]
         elif mode == "lowprec":
             if nf and rng.random() < 0.7:
                 faults = [{"group": gi, "block": target, "factor": k, "kind": "lowprec"} for k in range(nf)]
@@ -561,7 +575,7 @@ def execute(trace: dict) -> Outcome:
         faults=Counter(
             {
                 "matrix_exception": run.fault_counts.get("exception", 0),
-                "matrix_nonfinite": run.fault_counts.get("nan", 0) + run.fault_counts.get("inf", 0),
+                "matrix_nonfinite": run.fault_counts.get("nan", 0) + run.fault_counts.get("inf", 0) + run.fault_counts.get("huge", 0),
                 "eigh_lowprec_fail": run.fault_counts.get("lowprec", 0),
                 "nonfinite_grad": run.probes.get("fault_nonfinite_grad", 0),
                 "absent_grad": run.probes.get("absent_param_checked", 0),
